@@ -283,7 +283,8 @@ func runTypes(ctx *common.Ctx, g *gen) {
 			}
 		}
 	}
-	footer := "Definition res := Eval vm_compute in check_all_ty Tables.classes Tables.kinds cases.\nPrint res.\n"
+	footer := "Definition res := Eval vm_compute in check_all_ty Tables.classes Tables.kinds cases.\nPrint res.\n" +
+		"Definition model_mismatches := Eval vm_compute in ty_mismatches Tables.classes Tables.kinds cases : N.\nPrint model_mismatches.\n"
 	hdr := header + "From GenC16 Require Tables.\n"
 	ctx.WriteShards("cases_ty", hdr, "ty_case", footer, terms, descs, 2)
 	ctx.Meta.Evaluations += len(terms)
